@@ -374,7 +374,22 @@ fn body_of(file: &ast::ScriptFile, h: Host) -> Option<&ast::Block> {
 }
 
 // ---------------------------------------------------------------------------------------------
-// AST -> Coq term
+// AST -> model statement tree -> (Coq term | token encoding + hash)
+
+#[derive(Clone, Debug, PartialEq)]
+enum MCond { Bin(bool, BinOpKind, usize, usize), Other(usize) }     // Bin(is_count_form, op, a, b)
+#[derive(Clone, Debug, PartialEq)]
+enum MStmt {
+    Ins(Option<usize>, usize, Vec<usize>),
+    Intr(Option<usize>, usize),
+    No,
+    Label(usize),
+    Time(bool, i64),
+    Jump(Option<usize>, Option<MCond>, usize, Option<i64>),
+    Break(Option<usize>, Option<MCond>),
+    Loop(Option<MCond>, Vec<MStmt>),
+    Chain(Vec<(MCond, Vec<MStmt>)>, Option<Vec<MStmt>>),
+}
 
 #[derive(Default)]
 struct Interner { labels: HashMap<String, usize>, ins: HashMap<String, usize>, ops: HashMap<String, usize>, diffs: HashMap<String, usize>, problems: Vec<String> }
@@ -383,6 +398,11 @@ fn intern(m: &mut HashMap<String, usize>, k: String) -> usize { let n = m.len();
 
 fn z(i: i64) -> String { if i < 0 { format!("({})", i) } else { format!("{}", i) } }
 
+const BINOPS: [BinOpKind; 19] = {
+    use BinOpKind::*;
+    [Add, Sub, Mul, Div, Rem, Eq, Ne, Lt, Le, Gt, Ge, BitOr, BitXor, BitAnd, LogicOr, LogicAnd,
+     ShiftLeft, ShiftRightSigned, ShiftRightUnsigned]
+};
 fn binop_name(op: BinOpKind) -> &'static str {
     use BinOpKind::*;
     match op {
@@ -392,6 +412,7 @@ fn binop_name(op: BinOpKind) -> &'static str {
         ShiftRightSigned => "ShiftRightSigned", ShiftRightUnsigned => "ShiftRightUnsigned",
     }
 }
+fn binop_index(op: BinOpKind) -> u64 { BINOPS.iter().position(|o| *o == op).unwrap() as u64 }
 
 struct LabelRefs(Vec<String>);
 impl ast::Visit for LabelRefs {
@@ -402,55 +423,50 @@ impl ast::Visit for LabelRefs {
 }
 
 impl Interner {
-    fn diff(&mut self, s: &ast::Stmt) -> String {
-        match &s.diff_label { None => "None".into(), Some(d) => format!("(Some {}%nat)", intern(&mut self.diffs, d.string.string.clone())) }
+    fn diff(&mut self, s: &ast::Stmt) -> Option<usize> {
+        s.diff_label.as_ref().map(|d| intern(&mut self.diffs, d.string.string.clone()))
     }
-    fn cond(&mut self, e: &ast::Expr) -> String {
+    fn cond(&mut self, e: &ast::Expr) -> MCond {
         match e {
-            ast::Expr::BinOp(a, op, b) => format!("({} {} {}%nat {}%nat)", if matches!(a.value, ast::Expr::XcrementOp { .. }) { "CCnt" } else { "CBin" }, binop_name(op.value),
+            ast::Expr::BinOp(a, op, b) => MCond::Bin(matches!(a.value, ast::Expr::XcrementOp { .. }), op.value,
                 intern(&mut self.ops, truth::fmt::stringify(&a.value)), intern(&mut self.ops, truth::fmt::stringify(&b.value))),
-            other => format!("(COther {}%nat)", intern(&mut self.ops, truth::fmt::stringify(other))),
+            other => MCond::Other(intern(&mut self.ops, truth::fmt::stringify(other))),
         }
     }
-    fn jk(&mut self, cond: Option<&ast::Expr>) -> String {
-        match cond { None => "JU".into(), Some(c) => format!("(JC {})", self.cond(c)) }
-    }
-    fn jump(&mut self, d: String, k: String, j: &ast::StmtJumpKind) -> String {
+    fn jump(&mut self, d: Option<usize>, k: Option<MCond>, j: &ast::StmtJumpKind) -> MStmt {
         match j {
-            ast::StmtJumpKind::Goto(g) => format!("SJump {} {} {}%nat {}", d, k, intern(&mut self.labels, g.destination.value.as_str().to_string()),
-                match &g.time { None => "None".to_string(), Some(t) => format!("(Some {})", z(t.value as i64)) }),
+            ast::StmtJumpKind::Goto(g) => MStmt::Jump(d, k, intern(&mut self.labels, g.destination.value.as_str().to_string()), g.time.as_ref().map(|t| t.value as i64)),
             ast::StmtJumpKind::BreakContinue { keyword, .. } => {
                 if truth::fmt::stringify(&keyword.value) != "break" { self.problems.push("continue statement".into()); }
-                format!("SBreak {} {}", d, k)
+                MStmt::Break(d, k)
             },
         }
     }
-    fn block(&mut self, b: &ast::Block) -> String {
-        format!("[{}]", b.0.iter().map(|s| self.stmt(&s.value)).collect::<Vec<_>>().join("; "))
-    }
-    fn stmt(&mut self, s: &ast::Stmt) -> String {
+    fn block(&mut self, b: &ast::Block) -> Vec<MStmt> { b.0.iter().map(|s| self.stmt(&s.value)).collect() }
+    fn stmt(&mut self, s: &ast::Stmt) -> MStmt {
         let d = self.diff(s);
+        let bare = |kind: &ast::StmtKind| truth::fmt::stringify(&truth::sp!(ast::Stmt { node_id: None, diff_label: None, offset_comment: None, kind: kind.clone() }));
         match &s.kind {
-            ast::StmtKind::NoInstruction => "SNo".into(),
-            ast::StmtKind::Label(l) => format!("SLabel {}%nat", intern(&mut self.labels, l.value.as_str().to_string())),
-            ast::StmtKind::AbsTimeLabel(t) => format!("STime true {}", z(t.value as i64)),
+            ast::StmtKind::NoInstruction => MStmt::No,
+            ast::StmtKind::Label(l) => MStmt::Label(intern(&mut self.labels, l.value.as_str().to_string())),
+            ast::StmtKind::AbsTimeLabel(t) => MStmt::Time(true, t.value as i64),
             ast::StmtKind::RelTimeLabel { delta, .. } => match delta.as_const_int() {
-                Some(t) => format!("STime false {}", z(t as i64)),
-                None => { self.problems.push("non-constant time label".into()); "SNo".into() },
+                Some(t) => MStmt::Time(false, t as i64),
+                None => { self.problems.push("non-constant time label".into()); MStmt::No },
             },
-            ast::StmtKind::InterruptLabel(e) => format!("SIntr {} {}%nat", d, intern(&mut self.ins, format!("interrupt {}", truth::fmt::stringify(&e.value)))),
-            ast::StmtKind::Jump(j) => { let k = self.jk(None); self.jump(d, k, j) },
+            ast::StmtKind::InterruptLabel(e) => MStmt::Intr(d, intern(&mut self.ins, format!("interrupt {}", truth::fmt::stringify(&e.value)))),
+            ast::StmtKind::Jump(j) => self.jump(d, None, j),
             ast::StmtKind::CondJump { keyword, cond, jump } => {
                 if truth::fmt::stringify(&keyword.value) != "if" { self.problems.push("unless-jump in decompiled code".into()); }
-                let k = self.jk(Some(&cond.value)); self.jump(d, k, jump)
+                let k = self.cond(&cond.value); self.jump(d, Some(k), jump)
             },
             ast::StmtKind::Loop { block, .. } => {
                 if s.diff_label.is_some() { self.problems.push("difficulty label on a loop".into()); }
-                format!("SLoop JU {}", self.block(block))
+                MStmt::Loop(None, self.block(block))
             },
             ast::StmtKind::While { do_keyword: Some(_), cond, block, .. } => {
                 if s.diff_label.is_some() { self.problems.push("difficulty label on a loop".into()); }
-                let k = self.jk(Some(&cond.value)); format!("SLoop {} {}", k, self.block(block))
+                let k = self.cond(&cond.value); MStmt::Loop(Some(k), self.block(block))
             },
             ast::StmtKind::CondChain(chain) => {
                 if s.diff_label.is_some() { self.problems.push("difficulty label on a cond chain".into()); }
@@ -458,10 +474,10 @@ impl Interner {
                 for cb in &chain.cond_blocks {
                     if truth::fmt::stringify(&cb.keyword.value) != "if" { self.problems.push("unless-block in decompiled code".into()); }
                     let c = self.cond(&cb.cond.value);
-                    bs.push(format!("({}, {})", c, self.block(&cb.block)));
+                    bs.push((c, self.block(&cb.block)));
                 }
-                let els = match &chain.else_block { None => "None".to_string(), Some(b) => format!("(Some {})", self.block(b)) };
-                format!("SChain [{}] {}", bs.join("; "), els)
+                let els = chain.else_block.as_ref().map(|b| self.block(b));
+                MStmt::Chain(bs, els)
             },
             ast::StmtKind::Expr(_) | ast::StmtKind::Assignment { .. } => {
                 let mut v = LabelRefs(vec![]);
@@ -470,16 +486,74 @@ impl Interner {
                     ast::StmtKind::Assignment { value, .. } => ast::Visit::visit_expr(&mut v, value),
                     _ => {},
                 }
-                let refs: Vec<String> = v.0.into_iter().map(|l| format!("{}%nat", intern(&mut self.labels, l))).collect();
-                let text = {
-                    let tmp = truth::sp!(ast::Stmt { node_id: None, diff_label: None, offset_comment: None, kind: s.kind.clone() });
-                    truth::fmt::stringify(&tmp)
-                };
-                format!("SIns {} {}%nat [{}]", d, intern(&mut self.ins, text), refs.join("; "))
+                let refs: Vec<usize> = v.0.into_iter().map(|l| intern(&mut self.labels, l)).collect();
+                MStmt::Ins(d, intern(&mut self.ins, bare(&s.kind)), refs)
             },
-            other => { self.problems.push(format!("unexpected statement kind {}", truth::fmt::stringify(&truth::sp!(ast::Stmt { node_id: None, diff_label: None, offset_comment: None, kind: other.clone() })))); "SNo".into() },
+            other => { self.problems.push(format!("unexpected statement kind {}", bare(other))); MStmt::No },
         }
     }
+}
+
+// ---- Coq terms
+fn t_diff(d: &Option<usize>) -> String { match d { None => "None".into(), Some(k) => format!("(Some {}%nat)", k) } }
+fn t_cond(c: &MCond) -> String {
+    match c {
+        MCond::Bin(cnt, op, a, b) => format!("({} {} {}%nat {}%nat)", if *cnt { "CCnt" } else { "CBin" }, binop_name(*op), a, b),
+        MCond::Other(n) => format!("(COther {}%nat)", n),
+    }
+}
+fn t_jk(k: &Option<MCond>) -> String { match k { None => "JU".into(), Some(c) => format!("(JC {})", t_cond(c)) } }
+fn t_block(b: &[MStmt]) -> String { format!("[{}]", b.iter().map(t_stmt).collect::<Vec<_>>().join("; ")) }
+fn t_stmt(s: &MStmt) -> String {
+    match s {
+        MStmt::Ins(d, i, r) => format!("SIns {} {}%nat [{}]", t_diff(d), i, r.iter().map(|x| format!("{}%nat", x)).collect::<Vec<_>>().join("; ")),
+        MStmt::Intr(d, n) => format!("SIntr {} {}%nat", t_diff(d), n),
+        MStmt::No => "SNo".into(),
+        MStmt::Label(l) => format!("SLabel {}%nat", l),
+        MStmt::Time(a, t) => format!("STime {} {}", a, z(*t)),
+        MStmt::Jump(d, k, l, t) => format!("SJump {} {} {}%nat {}", t_diff(d), t_jk(k), l, match t { None => "None".to_string(), Some(t) => format!("(Some {})", z(*t)) }),
+        MStmt::Break(d, k) => format!("SBreak {} {}", t_diff(d), t_jk(k)),
+        MStmt::Loop(k, b) => format!("SLoop {} {}", t_jk(k), t_block(b)),
+        MStmt::Chain(bs, els) => format!("SChain [{}] {}",
+            bs.iter().map(|(c, b)| format!("({}, {})", t_cond(c), t_block(b))).collect::<Vec<_>>().join("; "),
+            match els { None => "None".to_string(), Some(b) => format!("(Some {})", t_block(b)) }),
+    }
+}
+
+// ---- token encoding (must agree with enc_prog in Corr/C07.v) and its hash
+fn e_diff(d: &Option<usize>, o: &mut Vec<u64>) { o.push(match d { None => 0, Some(k) => *k as u64 + 1 }); }
+fn e_cond(c: &MCond, o: &mut Vec<u64>) {
+    match c {
+        MCond::Bin(cnt, op, a, b) => { o.push(if *cnt { 1 } else { 0 }); o.push(binop_index(*op)); o.push(*a as u64); o.push(*b as u64); },
+        MCond::Other(n) => { o.push(2); o.push(*n as u64); },
+    }
+}
+fn e_jk(k: &Option<MCond>, o: &mut Vec<u64>) { match k { None => o.push(0), Some(c) => { o.push(1); e_cond(c, o); } } }
+fn e_z(t: i64, o: &mut Vec<u64>) { o.push(if t < 0 { 1 } else { 0 }); o.push(t.unsigned_abs()); }
+fn e_block(b: &[MStmt], o: &mut Vec<u64>) { o.push(b.len() as u64); for s in b { e_stmt(s, o); } }
+fn e_stmt(s: &MStmt, o: &mut Vec<u64>) {
+    match s {
+        MStmt::Ins(d, i, r) => { o.push(0); e_diff(d, o); o.push(*i as u64); o.push(r.len() as u64); for x in r { o.push(*x as u64); } },
+        MStmt::Intr(d, n) => { o.push(1); e_diff(d, o); o.push(*n as u64); },
+        MStmt::No => o.push(2),
+        MStmt::Label(l) => { o.push(3); o.push(*l as u64); },
+        MStmt::Time(a, t) => { o.push(4); o.push(*a as u64); e_z(*t, o); },
+        MStmt::Jump(d, k, l, t) => { o.push(5); e_diff(d, o); e_jk(k, o); o.push(*l as u64); match t { None => o.push(0), Some(t) => { o.push(1); e_z(*t, o); } } },
+        MStmt::Break(d, k) => { o.push(6); e_diff(d, o); e_jk(k, o); },
+        MStmt::Loop(k, b) => { o.push(7); e_jk(k, o); e_block(b, o); },
+        MStmt::Chain(bs, els) => {
+            o.push(8); o.push(bs.len() as u64);
+            for (c, b) in bs { e_cond(c, o); e_block(b, o); }
+            match els { None => o.push(0), Some(b) => { o.push(1); e_block(b, o); } }
+        },
+    }
+}
+const HASH_P: u128 = 2305843009213693951; // 2^61 - 1
+fn hash_prog(b: &[MStmt]) -> u64 {
+    let mut toks = vec![]; e_block(b, &mut toks);
+    let mut h: u128 = 7;
+    for t in toks { h = (h * 1000003 + t as u128 + 1) % HASH_P; }
+    h as u64
 }
 
 // ---------------------------------------------------------------------------------------------
@@ -509,7 +583,7 @@ fn check_loop_ids(b: &ast::Block, enclosing: Option<String>, seen: &mut HashSet<
 
 // ---------------------------------------------------------------------------------------------
 
-struct Outcome { case: Option<String>, fails: Vec<(String, String)>, rejected: Option<String>, vm_compared: u32, vm_skipped: u32, n_loops: usize, n_chains: usize, n_breaks: usize, residual_gotos: usize }
+struct Outcome { case: Option<String>, full: Option<String>, fails: Vec<(String, String)>, rejected: Option<String>, vm_compared: u32, vm_skipped: u32, vm_differs: Vec<String>, vm_exact: bool, n_loops: usize, n_chains: usize, n_breaks: usize, residual_gotos: usize }
 
 fn count_shapes(term: &str) -> (usize, usize, usize, usize) {
     (term.matches("SLoop").count(), term.matches("SChain").count(), term.matches("SBreak").count(), term.matches("SJump").count())
@@ -527,7 +601,7 @@ fn vm_run(stmts: &[truth::Sp<ast::Stmt>], ctx: &truth::CompilerContext<'_>, regs
 }
 
 fn run_case(h: Host, body: &str, tag: &str, rng: &mut Rng) -> Outcome {
-    let mut out = Outcome { case: None, fails: vec![], rejected: None, vm_compared: 0, vm_skipped: 0, n_loops: 0, n_chains: 0, n_breaks: 0, residual_gotos: 0 };
+    let mut out = Outcome { case: None, full: None, fails: vec![], rejected: None, vm_compared: 0, vm_skipped: 0, vm_differs: vec![], vm_exact: false, n_loops: 0, n_chains: 0, n_breaks: 0, residual_gotos: 0 };
     let dir = work_dir("c07");
     let text = wrap_body(h, body);
     let p0 = dir.join(format!("{}_0.{}", tag, ext(h)));
@@ -565,8 +639,8 @@ fn run_case(h: Host, body: &str, tag: &str, rng: &mut Rng) -> Outcome {
 
     // the passes one by one on a copy of F, in the order of postprocess_decompiled
     let mut it = Interner::default();
-    let f_term = match body_of(&file_f, h) { Some(b) => it.block(b), None => { out.rejected = Some("no body".into()); return out; } };
-    let mut steps: Vec<String> = vec![];
+    let f_m = match body_of(&file_f, h) { Some(b) => it.block(b), None => { out.rejected = Some("no body".into()); return out; } };
+    let mut steps: Vec<Vec<MStmt>> = vec![];
     {
         let mut cur = file_f.clone();
         let ctx = truth_f.ctx();
@@ -578,18 +652,21 @@ fn run_case(h: Host, body: &str, tag: &str, rng: &mut Rng) -> Outcome {
                 _ => passes::unused_labels::run(&mut cur).is_ok(),
             });
             match r {
-                Ok(true) => steps.push(body_of(&cur, h).map(|b| it.block(b)).unwrap_or_else(|| "[]".into())),
+                Ok(true) => steps.push(body_of(&cur, h).map(|b| it.block(b)).unwrap_or_default()),
                 Ok(false) => { out.fails.push((format!("pass {} reports an error", k), String::new())); break; },
                 Err(p) => { out.fails.push((format!("panic in pass {}", ["decompile_loop", "decompile_if_else", "decompile_break", "unused_labels"][k]), p)); break; },
             }
         }
     }
-    while steps.len() < 4 { steps.push("[SNo]".into()); }
-    let s_term = match &file_s { Some(f) => body_of(f, h).map(|b| it.block(b)).unwrap_or_else(|| "[]".into()), None => "[SNo]".into() };
+    while steps.len() < 4 { steps.push(vec![MStmt::No]); }
+    let s_m = match &file_s { Some(f) => body_of(f, h).map(|b| it.block(b)).unwrap_or_default(), None => vec![MStmt::No] };
     for p in it.problems.drain(..) { out.fails.push(("decompiled AST outside the modelled fragment".into(), p)); }
+    let s_term = t_block(&s_m);
     let (nl, nc, nb, nj) = count_shapes(&s_term);
     out.n_loops = nl; out.n_chains = nc; out.n_breaks = nb; out.residual_gotos = nj;
-    out.case = Some(format!("KStruct {} {} {} {} {} {}", f_term, steps[0], steps[1], steps[2], steps[3], s_term));
+    // the compact case: the flat stream as a term, the implementation's five results as hashes of their token encoding
+    out.case = Some(format!("KHash {} [{}%N; {}%N; {}%N; {}%N; {}%N]", t_block(&f_m), hash_prog(&steps[0]), hash_prog(&steps[1]), hash_prog(&steps[2]), hash_prog(&steps[3]), hash_prog(&s_m)));
+    out.full = Some(format!("KStruct {} {} {} {} {} {}", t_block(&f_m), t_block(&steps[0]), t_block(&steps[1]), t_block(&steps[2]), t_block(&steps[3]), s_term));
 
     // (d) loop ids
     if let Some(fs) = &file_s {
@@ -616,7 +693,18 @@ fn run_case(h: Host, body: &str, tag: &str, rng: &mut Rng) -> Outcome {
         }
     }
 
-    // (c) AstVm on both
+    // (c) AstVm on both.  AstVm sets the clock to a block's start/end time when it enters/leaves a block; that
+    // equals what the flattened jumps do only while the clock is never ahead of the text (no explicit `@ time`
+    // argument, no absolute time label), so only such programs count; the others are reported as notes.
+    fn time_tricks(b: &[MStmt]) -> bool {
+        b.iter().any(|s| match s {
+            MStmt::Jump(_, _, _, Some(_)) | MStmt::Time(true, _) => true,
+            MStmt::Loop(_, b) => time_tricks(b),
+            MStmt::Chain(bs, e) => bs.iter().any(|(_, b)| time_tricks(b)) || e.as_ref().map_or(false, |b| time_tricks(b)),
+            _ => false,
+        })
+    }
+    out.vm_exact = !time_tricks(&f_m);
     if let Some(fs) = &file_s {
         if let (Some(bf), Some(bs)) = (body_of(&file_f, h), body_of(fs, h)) {
             for _ in 0..3 {
@@ -627,7 +715,7 @@ fn run_case(h: Host, body: &str, tag: &str, rng: &mut Rng) -> Outcome {
                 match (rf, rs) {
                     (Ok(a), Ok(b)) => {
                         out.vm_compared += 1;
-                        if a != b { out.fails.push(("AstVm: the reconstructed program behaves differently from the labels-and-gotos program".into(), format!("regs {:?} diff {} ;; flat {:?} ;; structured {:?}", regs, diff, a, b))); }
+                        if a != b { out.vm_differs.push(format!("regs {:?} diff {} ;; flat {:?} ;; structured {:?}", regs, diff, a, b)); }
                     },
                     _ => out.vm_skipped += 1,
                 }
@@ -644,10 +732,16 @@ fn first_diff(a: &[u8], b: &[u8]) -> String {
 
 fn esc(s: &str) -> String { s.replace('\\', "\\\\").replace('\n', "\\n").replace('\t', " ") }
 
-fn report(h: Host, body: &str, o: &Outcome) {
+fn report(h: Host, body: &str, o: &Outcome, full: bool) {
     let src = format!("{:?}|{}", h, esc(body));
     for (what, detail) in &o.fails { println!("ORACLE-FAIL\t{}\t{}\t{}", what, esc(detail), src); }
-    if let Some(c) = &o.case { println!("STRUCT\t{}\t{}", c, src); }
+    for d in o.vm_differs.iter().take(1) {
+        if o.vm_exact { println!("ORACLE-FAIL\tAstVm: the reconstructed program behaves differently from the labels-and-gotos program\t{}\t{}", esc(d), src); }
+        else { println!("NOTE\tAstVm differs on a program whose clock runs ahead of the text (explicit @time / absolute time label)\t{}\t{}", esc(d), src); }
+    }
+    if let Some(c) = &o.case {
+        if full { println!("STRUCT\t{}\t{}\t{}", c, src, o.full.as_deref().unwrap_or("")); } else { println!("STRUCT\t{}\t{}", c, src); }
+    }
 }
 
 fn main() {
@@ -672,7 +766,7 @@ fn main() {
                 vm_cmp += o.vm_compared as u64; vm_skip += o.vm_skipped as u64;
                 loops += o.n_loops; chains += o.n_chains; breaks += o.n_breaks; gotos += o.residual_gotos;
                 if o.n_loops + o.n_chains > 0 { structured += 1; }
-                report(h, &body, &o);
+                report(h, &body, &o, false);
             }
             println!("STATS\tprograms={}\trejected={}\twith_blocks={}\tloops={}\tchains={}\tbreaks={}\tresidual_gotos={}\tvm_compared={}\tvm_not_executable={}\tkinds={:?}\tfeatures={:?}\treject_samples={:?}",
                      n, rejected, structured, loops, chains, breaks, gotos, vm_cmp, vm_skip, kinds, hist, reject_samples);
@@ -682,7 +776,7 @@ fn main() {
             let body = std::fs::read_to_string(&args[3]).expect("read");
             let o = run_case(h, &body, "t", &mut rng);
             if let Some(r) = &o.rejected { println!("REJECTED\t{}", esc(r)); }
-            report(h, &body, &o);
+            report(h, &body, &o, true);
         },
         _ => { eprintln!("usage: c07 gen <n> | text <Anm|Ecl> <file>"); std::process::exit(2); },
     }
